@@ -129,14 +129,24 @@ C04_OnlyWhenRequired(c, E, l) ==
        (q # 0 /\ E[l].p > E[q].p) =>
           \/ ForceAt(c, E[l].r)
           \/ DataPartUsed(E, E[q].p, q + 1) + E[l].wt + HeadsBrought(c, E[l].r) + ReservedAll(c) > c.nrow
-\* the same, not counting the phantom / doubly charged heading of the recorded findings
+\* the same, not counting the phantom / doubly charged heading of the recorded findings: the
+\* first row of the page being left was charged one heading row that is never rendered when
+\* it starts a page_by group kept as a column, and one more when it starts a subline group
+PhantomOn(c, E, p) ==
+  LET D == DataOn(E, p) IN
+    IF D = {} THEN 0
+    ELSE LET f == CHOOSE j \in D : \A x \in D : j <= x
+             r0 == E[f].r
+         IN IF r0 \notin 1..c.n THEN 0
+            ELSE (IF c.haspb /\ ~c.spanning /\ (r0 = 1 \/ c.grp[r0] # c.grp[r0 - 1]) THEN 1 ELSE 0)
+               + (IF c.hassub /\ (r0 = 1 \/ c.sub[r0] # c.sub[r0 - 1]) THEN 1 ELSE 0)
 C04_OnlyWhenRequiredModuloKnown(c, E, l) ==
   (l <= Len(E) /\ E[l].k = "data" /\ E[l].r \in 2..c.n) =>
      LET q == PrevData(E, l) IN
        (q # 0 /\ E[l].p > E[q].p) =>
           \/ ForceAt(c, E[l].r)
           \/ DataPartUsed(E, E[q].p, q + 1) + E[l].wt + HeadsBrought(c, E[l].r) + ReservedAll(c)
-               + c.phantom > c.nrow
+               + PhantomOn(c, E, E[q].p) > c.nrow
 C04_NoMix(c, E, l) ==
   (l <= Len(E) /\ E[l].k = "data" /\ E[l].r \in 2..c.n) =>
      LET q == PrevData(E, l) IN
